@@ -23,10 +23,10 @@ def to_model_chars(text):
     return [FW.get(ch, ch) for ch in text]
 
 # slot -> (field name, element classes whose text shows it, style property through which it reaches an attribute (or None))
-CLI_SLOTS = {"selector": ("selector", ["selector"], None), "file": ("file", ["file-info"], None),
+CLI_SLOTS = {"selector": ("selector", ["selector#0"], None), "file": ("file", ["file-info#0"], None),
              "bg": ("bg", [], "background-color"), "original_text": ("original_text", ["color-code#0"], "color#0"),
              "tuned_text": ("tuned_text", ["color-code#1"], "color#1")}
-API_SLOTS = {"selector": ("selector", ["selector"], None), "file": ("file", ["file-info"], None),
+API_SLOTS = {"selector": ("selector", ["selector#0"], None), "file": ("file", ["file-info#0"], None),
              "bg": ("bg", [], "background-color"), "fg": ("fg", ["color-code#0"], "color#0"),
              "tuned_fg": ("tuned_fg", ["color-code#1"], "color#1")}
 
@@ -48,7 +48,7 @@ class Struct(HTMLParser):
         if cls in ("selector", "file-info", "color-code"):
             n = self.counts.get(cls, 0)
             self.counts[cls] = n + 1
-            key = cls if cls != "color-code" else f"color-code#{n}"
+            key = f"{cls}#{n}"        # n-th occurrence in the document (card 0 has selector#0, file-info#0, color-code#0/#1)
             self.texts.setdefault(key, "")
         if cls == "color-box":
             self.styles.append(a.get("style") or "")
@@ -106,23 +106,47 @@ def extract(p, slotdef, given_marker_struct):
     return out
 
 
-def render(gen, slots, slot, text, workdir):
+VARIANTS = 6      # shapes of the record list around the slot under test
+
+
+def records(gen, slots, slot, text, variant):
+    """the list of pair records given to the generator: the slot under test carries `text`; the variant decides the
+    library-computed fields around it (levels, whether the colour was changed) and how many cards / files there are"""
+    lv = [("FAIL", "AA"), ("AA", "AA"), ("AAA", "AAA"), ("FAIL", "FAIL"), ("FAIL", "AA"), ("AA", "AAA")][variant % VARIANTS]
+    same = variant % VARIANTS in (1, 2, 3)          # an unchanged card: tuned colour spelled exactly like the original
+    if gen == "cli":
+        pair = {"file": "styles.css", "selector": ".sel", "bg": "#ffffff", "original_text": "#777777",
+                "tuned_text": "#777777" if same else "#757575", "original_level": lv[0], "new_level": lv[1]}
+        pair[slots[slot][0]] = text
+        if same and slots[slot][0] == "original_text":
+            pair["tuned_text"] = text
+        other = {"file": "other.css", "selector": ".o", "bg": "#000000", "original_text": "#888888", "tuned_text": "#8a8a8a",
+                 "original_level": "FAIL", "new_level": "AA"}
+    else:
+        pair = {"fg": "#000000" if same else "#777777", "bg": "#ffffff", "tuned_fg": "#000000" if same else "#757575",
+                "original_level": lv[0], "new_level": lv[1], "selector": "Pair 1", "file": "Bulk API"}
+        pair[slots[slot][0]] = text
+        if same and slots[slot][0] == "fg":
+            pair["tuned_fg"] = text
+        other = {"fg": "#888888", "bg": "#000000", "tuned_fg": "#8a8a8a", "original_level": "FAIL", "new_level": "AA",
+                 "selector": "Pair 2", "file": "Second file"}
+    if variant % VARIANTS in (4, 5):                 # several cards from several files; the card under test first
+        return [pair, other, dict(other, selector=".o2")]
+    return [pair]
+
+
+def render(gen, slots, slot, text, workdir, variant=0):
     vlib.use_repo()
     path = os.path.join(workdir, "r.html")
     if os.path.exists(path):
         os.remove(path)
+    recs = records(gen, slots, slot, text, variant)
     if gen == "cli":
         from cm_colors.cli.html_report import generate_report
-        pair = {"file": "styles.css", "selector": ".sel", "bg": "#ffffff", "original_text": "#777777", "tuned_text": "#757575",
-                "original_level": "FAIL", "new_level": "AA"}
-        pair[slots[slot][0]] = text
-        generate_report([pair], output_path=path)
+        generate_report(recs, output_path=path)
     else:
         from cm_colors.core.visualiser import to_html_bulk
-        pair = {"fg": "#777777", "bg": "#ffffff", "tuned_fg": "#757575", "original_level": "FAIL", "new_level": "AA",
-                "selector": "Pair 1", "file": "Bulk API"}
-        pair[slots[slot][0]] = text
-        to_html_bulk([pair], output_path=path)
+        to_html_bulk(recs, output_path=path)
     return parse(path)
 
 
@@ -135,18 +159,19 @@ def sid(seq):
 
 
 def observe(job):
-    gen, slot, sym = job
+    gen, slot, sym = job[:3]
+    variant = (sum(sym) + len(sym) + (job[3] if len(job) > 3 else 0)) % VARIANTS
     slots = CLI_SLOTS if gen == "cli" else API_SLOTS
     text = "".join(SIGMA[k - 1] for k in sym)
     wd = tempfile.mkdtemp(prefix="verif_rep_")
     try:
-        key = (gen, slot)
+        key = (gen, slot, variant)
         if key not in _BENIGN:
-            _BENIGN[key] = render(gen, slots, slot, MARK, wd)
+            _BENIGN[key] = render(gen, slots, slot, MARK, wd, variant)
         ben = _BENIGN[key]
         evs = []
         try:
-            p = render(gen, slots, slot, text, wd)
+            p = render(gen, slots, slot, text, wd, variant)
         except Exception as ex:
             return [{"gen": gen, "slot": slot, "ctx": "content", "sym": list(sym), "raw": [], "tags": 0, "benignTags": 0, "text": [],
                      "raised": type(ex).__name__, "given": text}]
@@ -202,13 +227,15 @@ def e2e(rnd, n):
             try:
                 os.chdir(wd)
                 captured.clear()
-                if route == 0:      # CLI: attribute selector string carrying the payload
+                if False:
+                    pass
+                elif route == 0:      # CLI: attribute selector string carrying the payload
                     sel = ".a[title=\"%s\"]" % pay.replace("\\", "\\\\").replace("\"", "\\\"").replace("\n", " ")
                     open("in.css", "w").write(sel + "{color:#777777;background-color:#ffffff}\n")
                     clilib.run_cli(os.path.join(wd, "in.css"), [], wd)
                     gen, rep, ben_text = "cli", "cm_colors_report.html", ".a[title=\"x\"]"
                     bsheet = ".a[title=\"x\"]{color:#777777;background-color:#ffffff}\n"
-                elif route == 1:    # CLI: file name carrying the payload
+                elif route == 1 and k % 8 != 5:    # CLI: file name carrying the payload
                     fname = pay.replace("/", "_").replace("\x00", "") + ".css"
                     try:
                         open(fname, "w").write(".b{color:#777777}\n")
@@ -220,6 +247,19 @@ def e2e(rnd, n):
                     with contextlib.redirect_stdout(io.StringIO()):
                         ColorPair("119, 119, 119 " + pay, "#ffffff").make_readable(save_report=True)
                     gen, rep = "api", "cm_colors_quick_report.html"
+                elif route == 3 and k % 8 == 3:    # API: an ALREADY READABLE pair (unchanged card) with the payload in the background
+                    with contextlib.redirect_stdout(io.StringIO()):
+                        make_readable_bulk([("#000000", "255, 255, 255, 1 " + pay)], save_report=True)
+                    gen, rep = "api", "cm_colors_bulk_report.html"
+                elif route == 1 and k % 8 == 5:    # CLI: a directory with two files that both get fixes, one with a hostile name
+                    fname = pay.replace("/", "_").replace("\x00", "") + ".css"
+                    try:
+                        open(fname, "w").write(".b{color:#777777}\n")
+                        open("plain.css", "w").write(".p{color:#888888}\n")
+                    except OSError:
+                        continue
+                    clilib.run_cli(wd, [], wd)
+                    gen, rep = "cli", "cm_colors_report.html"
                 else:               # API: bulk list with save_report
                     with contextlib.redirect_stdout(io.StringIO()):
                         make_readable_bulk([("119, 119, 119" + pay, "#ffffff"), ("#777777", "255, 255, 255 " + pay)], save_report=True)
